@@ -83,7 +83,11 @@ def rule_abort(F, loop_fn, rid="C18.A", prefix="C18/A"):
             key = "%s/%s/success-of-the-nested-run-checks-the-call-depth" % (prefix, f.name)
             oks = [b for b in cfg.return_blocks()]
             # is there a path target -> return, avoiding error exits and depth reads ?
-            seen = cfg.reachable_from(t["target"], avoid=set(err) | set(depth))
+            # the loop's own failure is not a success path: leave out the branch that is taken only when this call failed
+            # (in whatever spelling: `?`, match, if let, is_err()), also where it merges with the success path later
+            from rules.c16 import failure_edges
+            own_fail = set(tb for (_sb, tb) in failure_edges(f, du, bi) if tb is not None)
+            seen = cfg.reachable_from(t["target"], avoid=set(err) | set(depth) | own_fail)
             leak = [b for b in oks if b in seen]
             # a function that only forwards the Result (no Ok path of its own that does more than return it) is not a handler
             if not _handles_success(F, f, loop_fn):
